@@ -743,6 +743,78 @@ pub fn run_c17(cfg: &Cfg) -> Report {
             cx.sample(|| obj(vec![("history_length", n.into()), ("last_ops", format!("{:?}", &log[log.len().saturating_sub(5)..]).into()), ("final_raw_value", (c.raw_value() as u64).into())]));
         }
     }));
+    // structured large slices: constant fills, zero blocks, one hot column per 8-byte word, with a
+    // non-zero accumulator before; append, delete and the sink's slice entry point, plus inverses
+    let fills = [0x00u8, 0x01, 0x7F, 0x80, 0xFE, 0xFF];
+    let lens = [1023usize, 1024, 1025, 1032, 2047, 2048, 2049, 2056, 2064, 4096, 8192, 65_536, 70_001];
+    rep.merge(par_cases(cfg, "cksum.structured", (fills.len() * lens.len() * 12) as u64, |cx| {
+        let mut r = cx.rng.clone();
+        let fill = fills[(cx.idx as usize) % fills.len()];
+        let len = lens[(cx.idx as usize / fills.len()) % lens.len()];
+        let variant = cx.idx as usize / (fills.len() * lens.len()); // 0..12
+        let mut data = vec![fill; len];
+        match variant % 4 {
+            1 => {
+                // one column of each 8-byte word differs from the fill
+                let col = r.usize_below(8);
+                let other = *r.pick(&[0x00u8, 0xFF, 0x80]);
+                for (i, b) in data.iter_mut().enumerate() {
+                    if i % 8 == col {
+                        *b = other;
+                    }
+                }
+            }
+            2 => {
+                for b in data.iter_mut().step_by(2) {
+                    *b = r.u8b() | 0x80;
+                }
+            }
+            3 => data = r.byte_vec(len).into_iter().map(|b| b | 0xC0).collect(),
+            _ => {}
+        }
+        let rs = r.u8b();
+        let start = *r.pick(&[0u8, 1, 0x7F, 0x80, 0xFF, rs]);
+        let want_sum: i128 = data.iter().map(|b| *b as i128).sum();
+        cx.eval();
+        let mut c = Checksum::default();
+        c.add(start);
+        let which = variant / 4; // 0 append, 1 delete, 2 sink vec
+        match which {
+            0 => c.append(&data),
+            1 => c.delete(&data),
+            _ => AmlSink::vec(&mut c, &data),
+        }
+        let model = if which == 1 { start as i128 - want_sum } else { start as i128 + want_sum };
+        cx.obs();
+        if c.raw_value() != model.rem_euclid(256) as u8 {
+            cx.violation(
+                format!(
+                    "state {} then {} of a {}-byte slice (fill {:#04x}, pattern {}): raw value {} but the mod-256 sum is {}",
+                    start,
+                    ["append", "delete", "sink.vec"][which],
+                    len,
+                    fill,
+                    variant % 4,
+                    c.raw_value(),
+                    model.rem_euclid(256)
+                ),
+                J::Null,
+            );
+            return;
+        }
+        // exact inverse
+        match which {
+            1 => c.append(&data),
+            _ => c.delete(&data),
+        }
+        cx.obs();
+        if c.raw_value() != start {
+            cx.violation(format!("{} of a {}-byte slice followed by its inverse does not restore state {} (got {})", ["append", "delete", "sink.vec"][which], len, start, c.raw_value()), J::Null);
+            return;
+        }
+        cx.rep.distinct(&(fill, len, variant));
+        cx.rep.cov("structured_large_slice");
+    }));
     let _ = (get as fn(&[u8], usize, usize) -> u64, <Checksum as Default>::default);
     let _: Option<&dyn Aml> = None;
     rep
